@@ -51,6 +51,10 @@ THEOREMS = [
     "IrVerif.Scope.C17_idempotent_partial",
     "IrVerif.Scope.C17_ext_payload_fixpoint",
     "IrVerif.Scope.C17_ir9_entries_inert",
+    "IrVerif.Scope.C17_idempotent_ext",
+    "IrVerif.Scope.C17_idempotent_ir9",
+    "IrVerif.Scope.C17_idempotent_ext_model",
+    "IrVerif.Scope.C17_ext_sharding_resolved",
 ]
 ASSUMPTIONS = [
     "byte-level parsing is protobuf's; Python RecursionError counts as 'raises'",
@@ -241,7 +245,7 @@ def mutate_fields(rng, m: onnx.ModelProto, hist: dict) -> None:
          "cycle", "dup_attr_name", "tensor_unknown_dtype", "output_of_outer", "rename_to_dup",
          "shape_without_type", "func", "vinfo_metadata", "tensor_metadata", "big_dims", "seq_no_elem",
          "quant_annotation", "quant_annotation", "graph_node_metadata", "device_config", "device_config",
-         "map_type", "swap_io", "deco", "deco", "deco", "ir9_collision"]
+         "map_type", "swap_io", "deco", "deco", "deco", "ir9_collision", "anon_input", "anon_input"]
     )
     hist[f"mut={kind}"] = hist.get(f"mut={kind}", 0) + 1
     vis = list(g.input) + list(g.value_info) + list(g.output)
@@ -356,6 +360,20 @@ def mutate_fields(rng, m: onnx.ModelProto, hist: dict) -> None:
         g.output[0].name = g.input[0].name
     elif kind == "quant_annotation":
         names = [i.name for i in g.input] + [t.name for t in g.initializer] + [o for n in g.node for o in n.output]
+        if len(g.input) and rng.random() < 0.3:
+            # two graph inputs of one name, an initializer of that name, an annotation for it: the input loop of
+            # serialize_graph_into skips BOTH inputs (the name is an initializer key), the initializer loop writes one
+            # entry (mutation W8: writing it for the shadowed input as well)
+            nme = rng.choice([i.name for i in g.input])
+            if nme:
+                dup = g.input.add()
+                dup.CopyFrom(next(i for i in g.input if i.name == nme))
+                sc.gen_tensor_proto(rng, g.initializer.add(), nme)
+                a = g.quantization_annotation.add()
+                a.tensor_name = nme
+                e = a.quant_parameter_tensor_names.add()
+                e.key, e.value = "SCALE_TENSOR", "s"
+                hist["quant_dup_input_initializer"] = hist.get("quant_dup_input_initializer", 0) + 1
         for _ in range(rng.randrange(1, 3)):
             a = g.quantization_annotation.add()
             a.tensor_name = rng.choice(names + ["ghost_q", ""]) if names else "ghost_q"
@@ -372,6 +390,65 @@ def mutate_fields(rng, m: onnx.ModelProto, hist: dict) -> None:
                 e.key, e.value = rng.choice(["nk", "nk", "nk2"]), rng.choice(["nv", ""])
         e = m.metadata_props.add()
         e.key, e.value = "mk", "mv"
+    elif kind == "anon_input":
+        # A graph input whose name field is ABSENT (ClearField, not name == "") or "", next to values called like
+        # the names the IR generates for anonymous values (val_0, val_1, ...): if deserialization made such an input
+        # anonymous, Graph.__init__ would name it val_N before the node outputs are known and the second leg
+        # from_proto(to_proto(from_proto(p))) would raise `redeclared` (seeded change C17-q1).
+        if len(g.input) == 0 or rng.random() < 0.3:
+            vi = g.input.add()
+            if rng.random() < 0.5:
+                vi.type.tensor_type.elem_type = 1
+            how_in = "added_absent"
+        else:
+            vi = rng.choice(list(g.input))
+            if rng.random() < 0.7:
+                vi.ClearField("name")
+                how_in = "absent"
+            else:
+                vi.name = ""
+                how_in = "empty"
+        hist[f"anon_input={how_in}"] = hist.get(f"anon_input={how_in}", 0) + 1
+        n_anon = sum(1 for i in g.input if not i.name)
+        target = rng.choice([f"val_{i}" for i in range(max(1, n_anon) + 1)])
+        how = rng.choice(["rename_output", "rename_output", "add_node", "node_input", "initializer", "graph_output"])
+        outs = [(n, k) for n in g.node for k, o in enumerate(n.output) if o]
+        if how == "rename_output" and outs:
+            n, k = rng.choice(outs)
+            old_name = n.output[k]
+            n.output[k] = target
+            for n2 in g.node:
+                for j, x in enumerate(n2.input):
+                    if x == old_name:
+                        n2.input[j] = target
+            for o in g.output:
+                if o.name == old_name:
+                    o.name = target
+            for v in g.value_info:
+                if v.name == old_name:
+                    v.name = target
+        elif how == "node_input" and len(g.node):
+            rng.choice(list(g.node)).input.append(target)
+        elif how == "initializer":
+            sc.gen_tensor_proto(rng, g.initializer.add(), target)
+        elif how == "graph_output":
+            g.output.add().name = target
+        else:
+            how = "add_node"
+            n = g.node.add()
+            n.op_type = "Identity"
+            n.input.append(rng.choice([i.name for i in g.input] + [""]))
+            n.output.append(target)
+        hist[f"anon_input_next_to={how}"] = hist.get(f"anon_input_next_to={how}", 0) + 1
+        if len(m.functions) and rng.random() < 0.5:
+            # function inputs are strings: "" is the only unnamed form; next to a node output called val_N
+            f = rng.choice(list(m.functions))
+            f.input.append("")
+            n = f.node.add()
+            n.op_type = "Identity"
+            n.input.append("")
+            n.output.append(rng.choice(["val_0", "val_1"]))
+            hist["anon_function_input"] = hist.get("anon_function_input", 0) + 1
     elif kind == "deco":
         mutate_decorations(rng, m, g, hist)
     elif kind == "ir9_collision":
@@ -1197,6 +1274,13 @@ def diff_ext(part, out: dict, case, flags, model, err, q, m) -> None:
     wf = bool(flags.get("ext_functions"))
     if wf:
         part.count("ext_cases_with_functions")
+    if "reloadable_ext" in out:
+        # the certificate ReloadableE (hypothesis of the round-trip theorems; deserializeE_reloadableE proves it for
+        # every deserialized model) evaluated by the decision procedure of Model/ScopeCert.lean
+        part.count(f"ext_certificate_holds={bool(out['reloadable_ext'])}")
+        if not out["reloadable_ext"]:
+            part.disagree("extended model: the deserialized model fails the ReloadableE decision procedure "
+                          "(contradicts deserializeE_reloadableE: driver / checker defect)", case, out.get("ext"), None)
     to_ext = sm.model_proto_to_ext if wf else (lambda mm, fl: sm.graph_proto_to_ext(mm.graph, fl))
     try:
         real = sm.canon_world_ext(sm.ir_model_to_world_ext(model) if wf else sm.ir_graph_to_world_ext(model.graph))
